@@ -46,6 +46,9 @@ HAY_YAML = [
     "2001-12-14T21:59:43.10-05:00", '"é"', '"1+"', '"..."',
     '"1.1.5"', '"1.5-rc1"', '"3.0.1"', '"5 apples"',
     "&B1 true", "&B2 false", "&I1 1", "&S1 true-ish",
+    # integers beyond what a float can tell apart
+    "9007199254740993", "9007199254740992", '"9007199254740993"',
+    "-9007199254740993",
 ]
 NEEDLES = [
     "", " ", "0", "1", "-1", "1000", "1.0", "2.5", "01", "a", "A", "ab", "b",
@@ -53,6 +56,7 @@ NEEDLES = [
     "{[1]: 2}", "1e3", "0x10", "1_000", "(1", "'q'", "a b", "a.b", "^a", "a$",
     ".", "a|b", "2020", "é", "1+", "...", "-0.5",
     "1.10", "1.50", "3.00", "1.1.5", "5.",
+    "9007199254740992", "9007199254740993", "-9007199254740992",
 ]
 _HAYS = None
 
